@@ -8,7 +8,7 @@ THEOREMS = [
     "Sb.C02.opcodes_match_format", "Sb.C02.timing_constants", "Sb.C02.loopBegin_depth", "Sb.C02.loopEnd_depth",
     "Sb.C02.loopBegin_full", "Sb.C02.loopEnd_cases", "Sb.C02.pyro_mask", "Sb.C02.lerpChan_zero", "Sb.C02.lerpChan_one",
     "Sb.C02.lerpChan_le", "Sb.C02.ended_held", "Sb.C02.execCommand_ended", "Sb.C02.step_total",
-    "Sb.C02.answer_on_chain", "Sb.C02.steady_colour", "Sb.C02.next_event_sound",
+    "Sb.C02.answer_on_chain", "Sb.C09.fresh_shows_first_command", "Sb.C09.answers_up_to_latitude", "Sb.C02.steady_colour", "Sb.C02.next_event_sound",
     "Sb.Proofs.Light.execCommand_post", "Sb.Proofs.Light.chain_good", "Sb.Proofs.Light.seek_inv",
 ]
 ASSUMPTIONS = ["no signal source attached (the C API offers none): channel commands yield black, triggers never fire",
